@@ -150,7 +150,7 @@ def gen_tree(rng, size):
 
 
 def generate(tier, rng):
-    n = 900 if tier == "quick" else 12000
+    n = 1800 if tier == "quick" else 12000
     # a few fixed shapes first (the classic off-by-one layouts)
     yield {"nodes": [{"t": "proj", "par": -1, "name": "P", "rich": True},
                      {"t": "job", "par": 0, "k": 1, "proj": True},
